@@ -2,7 +2,8 @@
    Theorem statements only; proofs live in Proofs/ConsumerC14.v (and ConsumerInv.v for the run-level ones).
    Model: Model/Consumer.v (afkak/consumer.py:290-1131).  Never weaken a statement here. *)
 From Coq Require Import QArith Qminmax.
-From AV Require Import Base.Util Model.Consumer Proofs.ConsumerBase Proofs.ConsumerC14 Proofs.ConsumerInv Proofs.ConsumerRun Proofs.ConsumerLimit.
+From AV Require Import Base.Util Model.Consumer Proofs.ConsumerBase Proofs.ConsumerC14 Proofs.ConsumerInv Proofs.ConsumerRun Proofs.ConsumerLimit
+  Proofs.ConsumerFuelEnoughLoop Proofs.ConsumerFuelEnoughRun.
 Open Scope Z_scope.
 
 (* ---------------- buffer growth: x16 while <= 2^20, else x2, clipped to the maximum; fails iff already at it ------- *)
@@ -163,6 +164,25 @@ Print Assumptions C14_unlimited_reachable.
 Theorem C14_limit_in_force : forall n0 s, Reach n0 s -> 0 < n0 -> s_maxatt s = n0 /\ s_susp s = false.
 Proof. exact limited_reachable. Qed.
 Print Assumptions C14_limit_in_force.
+
+(* ---------------- the fuel hypothesis of the run-level theorems is dischargeable ---------------- *)
+(* For every configuration the constructor accepts (cfg_ok: 0 <= auto_commit_every_n, consumer.py:208-209) and EVERY event
+   sequence there is a fuel from which on the interpreter of nested callback chains never runs out of fuel (proofs:
+   Proofs/ConsumerFuelEnough*.v; the fuel is the nesting depth, bounded linearly in messages to hand over + commit waiters) *)
+Theorem C14_fuel_enough : forall n0 c buf evs, cfg_ok c = true ->
+  exists fuel0, forall fuel, (fuel0 <= fuel)%nat ->
+    forallb (fun t => fuel_ok (match t with (_, _, o, _) => o end)) (run_steps fuel (init c n0 buf) evs) = true.
+Proof. exact fuel_enough. Qed.
+Print Assumptions C14_fuel_enough.
+(* hence, for all sufficiently large fuel, without hypothesis: *)
+Theorem C14_backoff_index_all : forall n0 c buf evs, cfg_ok c = true ->
+  exists fuel0, forall fuel, (fuel0 <= fuel)%nat -> backoff_trace 0 (run_steps fuel (init c n0 buf) evs) = true.
+Proof. exact backoff_index_all. Qed.
+Print Assumptions C14_backoff_index_all.
+Theorem C14_attempt_limit_all : forall n0 c buf evs, cfg_ok c = true ->
+  exists fuel0, forall fuel, (fuel0 <= fuel)%nat -> limit_run n0 0 (run_steps fuel (init c n0 buf) evs) = true.
+Proof. exact attempt_limit_all. Qed.
+Print Assumptions C14_attempt_limit_all.
 
 (* ---------------- the delays: index k of the recurrence the code runs = min (init * F^k) max, over Q --------------- *)
 Theorem C14_delay_closed_form : forall init F mx : Q, (0 <= init)%Q -> (init <= mx)%Q -> (1 <= F)%Q ->
